@@ -224,9 +224,10 @@ def mon_nothing_skipped(ctx, res):
 
 
 # ================================================================ C03
-def _frame(elem, drop):
-    """Node tuple of elem with the elements whose id() is in `drop` (and their tails) removed."""
-    kids = tuple(_frame(c, drop) for c in elem if id(c) not in drop)
+def _frame(elem, drop, slots=()):
+    """Node tuple of elem with the elements whose id() is in `drop` (and their tails) removed; an
+    element whose id() is in `slots` is replaced by a placeholder, so its POSITION stays part of the frame."""
+    kids = tuple(('<slot>', (), '', '', ()) if id(c) in slots else _frame(c, drop, slots) for c in elem if id(c) not in drop)
     return (elem.tag, tuple(sorted(elem.attrib.items())), tree._norm(elem.text), tree._norm(elem.tail), kids)
 
 
@@ -344,8 +345,12 @@ def mon_frame(ctx, res):
         yield (f'{kind}:{note}:unreadable-after', f'{_case_str(case)}: running order unreadable / without roCreate after the merge')
         return
     db, da, moved = _named_sets(ctx)
-    fb = _frame(ctx.lib_view.root, db)
-    fa = _frame(av.root, da)
+    sb = sa = ()
+    if kind == 'RunningOrderReplace':
+        # the content of roCreate is what the message replaces; WHERE roCreate sits in the envelope is frame
+        sb, sa, db, da = db, da, set(), set()
+    fb = _frame(ctx.lib_view.root, db, sb)
+    fa = _frame(av.root, da, sa)
     res.extra['frames_compared'] += 1
     if db or da:
         res.extra['frames_with_named_elements'] += 1
